@@ -120,10 +120,43 @@ def r_opts(d):
     return "{" + "/".join("%s=%s" % (n, r_optval(n, d[n])) for n in sorted(d)) + "}"
 
 
+KNOWN_URIS = {"wamp.error.runtime_error": "900", "wamp.error.invalid_payload": "901",
+              "wamp.error.payload_size_exceeded": "902"}
+
+
+def r_vals(a):
+    """args of a reply message: ints as they are, None as 0, texts (messages) dropped"""
+    out = []
+    for x in (a or ()):
+        if x is None:
+            out.append("0")
+        elif isinstance(x, int) and not isinstance(x, bool):
+            out.append(str(x))
+        elif isinstance(x, (str, set, frozenset)):
+            continue          # texts (and cbor's sets) are results whose content is not compared
+        else:
+            out.append("?" + type(x).__name__)
+    return "a" + ".".join(out)
+
+
+def r_kwvals(k):
+    items = sorted((key_token(n), v) for n, v in (k or {}).items())
+    return "k" + ".".join("%d=%s" % (n, "0" if v is None else v) for n, v in items)
+
+
 def r_msg(msg):
     """canonical rendering of a message object handed to ITransport.send (through its marshal())"""
     from autobahn.wamp import message as M
     m = msg.marshal()
+    if isinstance(msg, M.Abort):
+        return "ABORT"
+    if isinstance(msg, M.Authenticate):
+        return "AUTHENTICATE"
+    if isinstance(msg, M.Yield):
+        return "YIELD,%d,%s,%s,%s" % (m[1], r_opts(m[2]), r_vals(m[3] if len(m) > 3 else ()), r_kwvals(m[4] if len(m) > 4 else {}))
+    if isinstance(msg, M.Error):
+        u = KNOWN_URIS.get(m[4]) or uri_token(m[4])
+        return "ERROR,%d,%s,%s,%s" % (m[2], u, r_vals(m[5] if len(m) > 5 else ()), r_kwvals(m[6] if len(m) > 6 else {}))
     if isinstance(msg, M.Hello):
         return "HELLO"
     if isinstance(msg, M.Goodbye):
@@ -160,6 +193,12 @@ def exc_name(e):
         return "AttributeError"
     if type(e) is Exception:
         return "Exception"
+    if isinstance(e, X.SerializationError):
+        return "SerializationError"
+    if type(e).__name__ == "PayloadExceededError":
+        return "PayloadExceededError"
+    if type(e) is ValueError:
+        return "Other"
     n = type(e).__name__
     if n in ("AlreadyCalledError", "InvalidStateError"):
         return "AlreadyCalled"
@@ -174,6 +213,7 @@ class MockTransport:
     def __init__(self, log):
         self.log = log            # callable(str)
         self.fail_next = False
+        self.faults = []          # outcomes of the next send() calls on reply paths (YIELD / ERROR): ok|ser|big|lost|other
         self.open = True
         self.sent = []
 
@@ -183,6 +223,18 @@ class MockTransport:
 
     # ITransport
     def send(self, msg):
+        from autobahn.wamp import message as M
+        if isinstance(msg, (M.Yield, M.Error)):
+            f = self.faults.pop(0) if self.faults else "ok"
+            if f != "ok":
+                from autobahn.wamp.exception import SerializationError, TransportLost
+                from autobahn.exception import PayloadExceededError
+                self.log("sendfail:%s:%s" % (f, r_msg(msg)))
+                raise {"ser": SerializationError, "big": PayloadExceededError, "lost": TransportLost,
+                       "other": ValueError}[f]("injected")
+            self.sent.append(msg)
+            self.log("send:" + r_msg(msg))
+            return
         self.sent.append(msg)
         self.log("send:" + r_msg(msg))
         if self.fail_next:
@@ -215,16 +267,45 @@ def session_class(fw):
     return ApplicationSession
 
 
-def make_session(env, log, realm="realm1"):
-    """-> (session, transport): a real ApplicationSession whose user-error hook is recorded"""
+REASONS = {"wamp.close.normal": 0, "wamp.close.transport_lost": 1, "wamp.error.no_such_realm": 2,
+           "wamp.error.cannot_authenticate": 3}
+
+
+def make_session(env, log, realm="realm1", hook=None, transport=True):
+    """-> (session, transport): a real ApplicationSession whose user-error hook is recorded. With `hook`
+    (callable(name, default_body, arg) -> return value) every lifecycle callback is overridden: the override logs
+    itself and lets `hook` decide whether the default body runs, what it calls, and whether it returns or raises;
+    observers of the five session events are registered and logged as `fire:<event>`."""
     from autobahn.wamp import types
     base = session_class(env.fw)
 
     class Sess(base):
         def onUserError(self, fail, msg):
             log("uerr")
+    if hook is not None:
+        class Sess(Sess):  # noqa: F811
+            def onConnect(self):
+                return hook("onConnect", lambda: base.onConnect(self), None)
+
+            def onJoin(self, details):
+                return hook("onJoin", None, None)
+
+            def onLeave(self, details):
+                return hook("onLeave", lambda: base.onLeave(self, details), REASONS.get(details.reason, 9))
+
+            def onDisconnect(self):
+                return hook("onDisconnect", lambda: base.onDisconnect(self), None)
+
+            def onChallenge(self, challenge):
+                return hook("onChallenge", None, None)
+
+            def onWelcome(self, msg):
+                return hook("onWelcome", None, None)
     s = Sess(types.ComponentConfig(realm=realm))
-    t = MockTransport(log)
+    if hook is not None:
+        for ev in ("connect", "join", "ready", "leave", "disconnect"):
+            s.on(ev, (lambda ev: (lambda *a, **k: log("fire:" + ev)))(ev))
+    t = MockTransport(log) if transport else None
     return s, t
 
 
@@ -284,6 +365,10 @@ class ScriptRunner:
                 return "closed1"
             if e.error.startswith("wamp.close."):
                 return "closed0"
+            if e.error == "wamp.error.no_such_realm":
+                return "closed2"
+            if e.error == "wamp.error.cannot_authenticate":
+                return "closed3"
             return "err(%s,%s,%s)" % (uri_token(e.error), r_args(e.args), r_kwargs(e.kwargs))
         return "?" + type(e).__name__
 
@@ -359,19 +444,117 @@ class ScriptRunner:
                 self.log("done:%d=%s" % (f, self.r_value(kind, v[1]) if v[0] == "v" else self.r_error(v[1])))
 
     # --- user code
-    def next_act(self):
-        return self.acts.pop(0) if self.acts else ("r", [])
+    DEFAULT_ACT = {"dflt": True, "raises": False, "spec": "", "progress": [], "calls": []}
 
-    def run_act(self, self_obj):
-        raises, calls = self.next_act()
+    def next_act(self):
+        return self.acts.pop(0) if self.acts else dict(self.DEFAULT_ACT)
+
+    def run_calls(self, calls, self_obj):
         for c in calls:
             if c == "self":
                 if self_obj is None:
                     continue
                 c = "unsub,%d,ok" % self_obj
             self.do_api(c, nested=True)
-        if raises == "x":
-            raise RuntimeError("user code raises")
+
+    def make_exc(self, spec):
+        """exception instance for an exc token: '' | r | a<uri>/<args>/<kwargs> | m<uri>/<args> | t<args> | u"""
+        from autobahn.wamp import exception as X
+        if spec in ("", "r"):
+            return RuntimeError()
+        if spec == "u":
+            class Unbuildable(Exception):
+                kwargs = 5          # `message.Error(...)` asserts `type(kwargs) == dict`
+            return Unbuildable()
+        if spec[0] == "a":
+            u, a, k = spec[1:].split("/")
+            return X.ApplicationError(uri(int(u)), *(parse_args(a) or []), **(parse_kwargs(k) or {}))
+        if spec[0] == "m":
+            u, a = spec[1:].split("/")
+            cls = self.mapped.get(u)
+            if cls is None:
+                cls = type("Mapped%s" % u, (Exception,), {})
+                self.mapped[u] = cls
+                self.sess.define(cls, uri(int(u)))
+            return cls(*(parse_args(a) or []))
+        if spec[0] == "t":
+            return RuntimeError(*(parse_args(spec[1:]) or []))
+        raise ValueError("bad exc token " + spec)
+
+    @staticmethod
+    def make_ret(spec):
+        """python value for a ret token: '' | n | v<val> | c<args>/<kwargs>"""
+        from autobahn.wamp import types
+        if spec in ("", "n"):
+            return None
+        if spec[0] == "v":
+            return int(spec[1:])
+        if spec[0] == "c":
+            a, k = spec[1:].split("/")
+            return types.CallResult(*(parse_args(a) or []), **(parse_kwargs(k) or {}))
+        raise ValueError("bad ret token " + spec)
+
+    def run_act(self, self_obj):
+        act = self.next_act()
+        self.run_calls(act["calls"], self_obj)
+        if act["raises"]:
+            raise self.make_exc(act["spec"])
+
+    # --- lifecycle hooks (every override logs itself; behaviour from the acts the event carried)
+    def hook(self, name, default_body, arg):
+        self.log("hook:%s" % name + ("" if arg is None else ",%d" % arg))
+        if name in self.now_acts:
+            # called from within the event that carries its behaviour
+            act = self.now_acts.pop(name)
+        else:
+            q = self.hook_acts.get(name)
+            act = q.pop(0) if q else dict(self.DEFAULT_ACT)
+        r = None
+        if act["dflt"] and default_body is not None:
+            r = default_body()
+        self.run_calls(act["calls"], None)
+        if act["raises"]:
+            raise self.make_exc(act["spec"])
+        if name == "onWelcome":
+            return None if act["spec"] in ("", "n") else "denied"
+        if name == "onChallenge":
+            return None if act["spec"] in ("", "n") else "signature"
+        return r
+
+    def bind_hooks(self, ev, acts):
+        """queue the behaviours an event carries for the hooks it will (eventually) make the session call"""
+        def put(name, i):
+            # a hook a continuation will call later (asyncio) or at once (Twisted): first in, first out
+            if i < len(acts):
+                self.hook_acts.setdefault(name, []).append(acts[i])
+
+        def now(name, i):
+            # a hook this very event calls synchronously
+            if i < len(acts):
+                self.now_acts[name] = acts[i]
+        self.now_acts = {}
+        joined = bool(self.sess._session_id)
+        if ev == "open":
+            put("onConnect", 0)
+        elif ev == "closed":
+            if joined:
+                now("onLeave", 0)
+            now("onDisconnect", 1)
+        elif ev == "m.welcome" and not joined:
+            now("onWelcome", 0)
+            a = acts[0] if acts else self.DEFAULT_ACT
+            if not a["raises"] and a["spec"] in ("", "n") and self.sess._transport is not None:
+                put("onJoin", 1)
+        elif ev == "m.abort" and not joined:
+            now("onLeave", 0)
+        elif ev == "m.goodbye" and joined:
+            now("onLeave", 0)
+        elif ev == "m.challenge" and not joined:
+            now("onChallenge", 0)
+            a = acts[0] if acts else self.DEFAULT_ACT
+            fails = a["raises"] or (a["spec"] in ("", "n") and self.fw != "twisted")
+            if fails and self.sess._transport is not None:
+                put("onLeave", 1)
 
     def make_handler(self, h, obj):
         def handler(*a, **kw):
@@ -383,6 +566,32 @@ class ScriptRunner:
             self.log("inv:%d,%d,%s,%s" % (obj, h, r_args(a), r_kwargs(kw, val)))
             self.run_act(obj)
         return handler
+
+    def make_endpoint(self, h, obj):
+        def endpoint(*a, **kw):
+            from autobahn.wamp import types
+
+            def val(v):
+                if isinstance(v, types.CallDetails):
+                    return "D%d.%d" % (self.fut_of_obj(v.registration), 1 if v.progress else 0)
+                return str(v)
+            req = self.cur_req
+            self.log("ep:%d,%d,%d,%s,%s" % (req, obj, h, r_args(a), r_kwargs(kw, val)))
+            act = self.next_act()
+            details = next((v for v in kw.values() if isinstance(v, types.CallDetails)), None)
+            if details is not None and details.progress:
+                self.prog_fns[req] = details.progress
+                for v in act["progress"]:
+                    details.progress(v)
+            self.run_calls(act["calls"], None)
+            if act["raises"]:
+                raise self.make_exc(act["spec"])
+            if act["spec"] == "p":
+                f = self.txaio.create_future()
+                self.inv_futs[req] = f
+                return f
+            return self.make_ret(act["spec"])
+        return endpoint
 
     def make_progress(self, h):
         def on_progress(*a, **kw):
@@ -407,6 +616,9 @@ class ScriptRunner:
                 return
             if op == "leave":
                 s.leave()
+                return
+            if op == "disconnect":
+                s.disconnect()
                 return
             if op == "cancel":
                 f = int(p[1])
@@ -509,7 +721,7 @@ class ScriptRunner:
                     r = s.subscribe(self.make_handler(int(p[1]), len(self.futs)), uri(int(p[2])), options=opts)
                 else:
                     tracked = ("reg", "_register_reqs")
-                    r = s.register(lambda *a, **k: None, uri(int(p[2])), options=opts)
+                    r = s.register(self.make_endpoint(int(p[1]), len(self.futs)), uri(int(p[2])), options=opts)
             elif op == "unsub":
                 from autobahn.wamp.request import Subscription
                 obj = self.result_of(int(p[1])) if int(p[1]) < len(self.futs) else None
@@ -577,18 +789,29 @@ class ScriptRunner:
         if op == "m.event":
             return M.Event(int(p[1]), int(p[2]), args=parse_args(p[3]), kwargs=parse_kwargs(p[4]))
         if op == "m.invocation":
-            return M.Invocation(int(p[1]), int(p[2]))
+            if len(p) == 3:
+                return M.Invocation(int(p[1]), int(p[2]))
+            return M.Invocation(int(p[1]), int(p[2]), args=parse_args(p[3]), kwargs=parse_kwargs(p[4]),
+                                receive_progress=(p[5] == "1") or None)
         if op == "m.interrupt":
             return M.Interrupt(int(p[1]))
         raise ValueError("bad message token " + tok)
 
     @staticmethod
     def parse_acts(t):
+        """act := [n](r[<ret>]|x[<exc>])[~p<v>.<v>...][+<call>...]"""
         acts = []
         if t:
             for a in t.split("!"):
                 parts = a.split("+")
-                acts.append((parts[0], parts[1:]))
+                head, _, prog = parts[0].partition("~")
+                dflt = not head.startswith("n")
+                if not dflt:
+                    head = head[1:]
+                assert head[:1] in ("r", "x"), "bad act " + a
+                acts.append({"dflt": dflt, "raises": head[0] == "x", "spec": head[1:],
+                             "progress": [int(x) for x in prog[1:].split(".")] if len(prog) > 1 else [],
+                             "calls": parts[1:]})
         return acts
 
     # --- one script
@@ -597,33 +820,75 @@ class ScriptRunner:
         self.futs, self.done, self.vals = [], [], []
         self.acts = []
         self.cur = []
-        self.sess, self.tr = make_session(self.env, self.log)
+        self.hook_acts = {}
+        self.now_acts = {}
+        self.mapped = {}
+        self.inv_futs = {}
+        self.prog_fns = {}
+        self.cur_req = -1
+        self.sess, self.tr = make_session(self.env, self.log, hook=self.hook)
         out = []
         for ev in script:
             self.cur = []
-            if ev == "open":
-                self.sess.onOpen(self.tr)
-            elif ev == "closed":
-                self.sess.onClose(True)
+            head, _, acts = ev.partition(";")
+            kind = head.split(",")[0]
+            if kind in ("open", "closed"):
+                self.bind_hooks(kind, self.parse_acts(acts))
+                if kind == "open":
+                    self.sess.onOpen(self.tr)
+                else:
+                    self.sess.onClose(True)
             elif ev == "pump":
                 self.env.pump()
-            elif ev.startswith("m."):
-                m, _, acts = ev.partition(";")
-                self.acts = self.parse_acts(acts)
+            elif ev == "tick":
+                self.env.tick()
+            elif kind.startswith("m."):
+                pa = self.parse_acts(acts)
+                if kind in ("m.welcome", "m.abort", "m.goodbye", "m.challenge"):
+                    self.bind_hooks(kind, pa)
+                    self.acts = []
+                else:
+                    self.acts = pa
+                faithful = head.endswith(",-")
+                m = head[:-2] if faithful else head
+                if kind == "m.invocation":
+                    self.cur_req = int(head.split(",")[1])
                 try:
                     self.sess.onMessage(self.build_msg(m))
                 except Exception as e:  # noqa: BLE001
                     self.log("raise:" + exc_name(e))
                 self.acts = []
-                if m.startswith("m.welcome") and self.fw != "twisted":
-                    # asyncio runs the WELCOME continuation (session id, onJoin) on the next loop iteration;
-                    # the model applies it at once (STUB, see Session.lean): scripts pump before WELCOME
+                if kind == "m.welcome" and not faithful:
+                    # the plain token means: delivered, and the loop ran until idle
                     self.env.pump()
+            elif kind == "fault":
+                self.tr.faults += head.split(",")[1].split(".")
+            elif kind == "resolve":
+                _, req, spec = head.split(",")
+                f = self.inv_futs.get(int(req))
+                if f is not None and not self.txaio.is_called(f):
+                    self.txaio.resolve(f, self.make_ret(spec))
+            elif kind == "fail":
+                _, req, spec = head.split(",", 2)
+                f = self.inv_futs.get(int(req))
+                if f is not None and not self.txaio.is_called(f):
+                    self.txaio.reject(f, self.make_exc(spec))
+            elif kind == "lateprog":
+                _, req, v = head.split(",")
+                fn = self.prog_fns.get(int(req))
+                if fn is None:
+                    self.log("unmodelled")
+                else:
+                    try:
+                        fn(int(v))
+                    except Exception as e:  # noqa: BLE001
+                        self.log("caught:" + exc_name(e))
             else:
                 self.do_api(ev)
+            self.now_acts = {}
             # completions are observed by polling, after everything else of this event
-            head = [x for x in self.cur if not x.startswith("done:")]
-            self.cur = head
+            head_ = [x for x in self.cur if not x.startswith("done:")]
+            self.cur = head_
             self.poll_done()
             out.append(";".join(self.cur) if self.cur else "-")
         # leave nothing behind for the next script
